@@ -449,6 +449,51 @@ pub mod ops {
             }
             // wrap_line <line_width> <--wrap-max-lines value> <style:hex text,...>
             // styles are small numbers; the fill style is 99, inserted symbols carry it
+            // superimpose <hex RRGGBB or '-':hex text,...> <hex style string:hex text,...>
+            // -> the superimposed sections painted (true colour), hex
+            "superimpose" => {
+                use syntect::highlighting::{Color, FontStyle, Style as SyntectStyle};
+                let null = SyntectStyle::default();
+                let syn_owned: Vec<(SyntectStyle, String)> = fields[1]
+                    .split(',')
+                    .filter(|e| !e.is_empty())
+                    .map(|e| {
+                        let (a, b) = e.split_once(':').unwrap_or((e, ""));
+                        let st = if a == "-" {
+                            null
+                        } else {
+                            let v = u32::from_str_radix(a, 16).unwrap_or(0);
+                            SyntectStyle {
+                                foreground: Color {
+                                    r: (v >> 16) as u8,
+                                    g: (v >> 8) as u8,
+                                    b: v as u8,
+                                    a: 0xff,
+                                },
+                                background: Color::BLACK,
+                                font_style: FontStyle::empty(),
+                            }
+                        };
+                        (st, hex_str(b))
+                    })
+                    .collect();
+                let diff_owned: Vec<(Style, String)> = fields[2]
+                    .split(',')
+                    .filter(|e| !e.is_empty())
+                    .map(|e| {
+                        let (a, b) = e.split_once(':').unwrap_or((e, ""));
+                        (parse_style(&hex_str(a), "1"), hex_str(b))
+                    })
+                    .collect();
+                let syn: Vec<(SyntectStyle, &str)> =
+                    syn_owned.iter().map(|(s, t)| (*s, t.as_str())).collect();
+                let diff: Vec<(Style, &str)> =
+                    diff_owned.iter().map(|(s, t)| (*s, t.as_str())).collect();
+                let out = crate::paint::verif::superimpose(&syn, &diff, true, null);
+                let painted: Vec<ansi_term::ANSIGenericString<str>> =
+                    out.iter().map(|(st, t)| st.paint(t.as_str())).collect();
+                hex_encode(ansi_term::ANSIStrings(&painted).to_string().as_bytes())
+            }
             "wrap_line" => {
                 let width: usize = fields[1].parse().unwrap_or(0);
                 let env = crate::env::DeltaEnv::default();
